@@ -178,7 +178,42 @@ def eval_multi_regex(cases):
         rules.build_rule = orig_build
 
 
+def same_rule_object_on_other_architectures(ctx: Ctx, n: int):
+    """The expansion of a regex is that of the architecture the rule is applied to: one rule object applied to several
+    architectures (pattern matching different modules, or none) must give, on each, the verdict of the rule that names the
+    modules the regex matches THERE."""
+    import re
+    for _ in range(n):
+        rng = ctx.rng
+        nodes = rules.rand_tree(rng, rng.choice((rules.COLLISION_FREE, rules.ADVERSARIAL)), max_nodes=10)
+        edges = rules.rand_edges(rng, nodes)
+        cand = [x for x in nodes if x != "r"]
+        if len(cand) < 3:
+            continue
+        stem = rng.choice(cand)
+        pat = re.escape(stem) + (".*" if rng.random() < 0.7 else r"(\..*)?$")
+        plain = rng.choice([x for x in cand if x != stem])
+        variants = [nodes, [x for x in nodes if x != stem], [x for x in nodes if not re.match(pat, x)] or ["r"], nodes]
+        archs = [(v, rules.make_arch_direct(v, [(a, b) for a, b in edges if a in v and b in v])) for v in variants]
+        for spec in rules.all_shapes(("regex", [pat]), ("named", [plain]), with_aliases=False)[::3]:
+            robj = rules.build_rule(spec)
+            for k, (v, a_) in enumerate(archs):
+                got = rules.run_rule(robj, a_)
+                matched = [x for x in v if re.match(pat, x)]
+                ctx.evaluations += 1
+                if not matched or plain not in v:
+                    exp = "ERR"
+                else:
+                    exp = rules.run_rule(rules.build_rule(dict(spec, subj=("named", matched))), a_)[0]
+                if got[0] != exp:
+                    ctx.violation(dict(nodes=nodes, edges=edges, pattern=pat, spec=rules._jsonable_spec(spec), architecture=v, reused_rule_object=got[0], expansion=exp),
+                                  f"rule object with regex {pat!r} applied to architecture #{k}: {got[0]}, its expansion there: {exp}", {"kind": "regex_other_architecture"})
+                    break
+        ctx.mark_nontrivial(("reapply", pat, tuple(nodes)))
+
+
 def run(ctx: Ctx):
+    same_rule_object_on_other_architectures(ctx, 150 if ctx.quick else 4000)
     n_graphs = 2000 if ctx.quick else 40000
     per = 50
     jobs = [(ctx.rng.randrange(1 << 30), per) for _ in range(n_graphs // per)]
@@ -190,7 +225,8 @@ def run(ctx: Ctx):
     ctx.rule = (f"{n_graphs} random graphs; per graph one of: regex as subject / as object (anchored names, prefixes, alternations, character classes, "
                 "non-matching patterns, built from the graph's own names), partial names (converted by the real converter) as subject, or a batch of 1-3 subjects x 1-3 objects "
                 "(related modules allowed); x 12 shapes; compact rule vs expanded rule(s) both run on the real code (verdict and parsed report), every evaluation compared with the model "
-                "(regex truth table from the real re.match); partial-name matching also compared with the model's glob matcher; non-trivial = graph whose shapes give different verdicts")
+                "(regex truth table from the real re.match); partial-name matching also compared with the model's glob matcher; one rule object with a regex applied to 4 architectures in which the pattern matches different modules or nothing, each outcome compared with the expansion on that architecture; "
+                "non-trivial = graph whose shapes give different verdicts")
 
 
 def replay(ctx: Ctx, path: str) -> int:
